@@ -1109,4 +1109,86 @@ theorem linksBetween_spec (a b : P2) (m : Mach) :
   rw [allLinks_eq]
   exact this
 
+/-! ### composition -/
+
+theorem walkOk_last_range (w h : Int) (hw : 0 < w) (hh : 0 < h) (p : P2) (path : List (Nat × P2))
+    (hok : walkOk (some w) (some h) p path = true) (hne : path ≠ []) :
+    (0 ≤ (lastPos p path).1 ∧ (lastPos p path).1 < w) ∧ (0 ≤ (lastPos p path).2 ∧ (lastPos p path).2 < h) := by
+  induction path generalizing p with
+  | nil => exact absurd rfl hne
+  | cons e rest ih =>
+    obtain ⟨l, q⟩ := e
+    simp only [walkOk, Bool.and_eq_true] at hok
+    obtain ⟨h1, h2⟩ := hok
+    rw [lastPos_cons]
+    cases rest with
+    | cons e' rest' => exact ih q h2 (by simp)
+    | nil =>
+      cases hs : specVec l with
+      | none => simp [hs] at h1
+      | some d =>
+        simp only [hs, beq_iff_eq, stepTo_some hw hh] at h1
+        simp only [lastPos, List.getLast?_nil, ← h1]
+        exact ⟨⟨Int.emod_nonneg _ (Int.ne_of_gt hw), Int.emod_lt_of_pos _ hw⟩,
+          ⟨Int.emod_nonneg _ (Int.ne_of_gt hh), Int.emod_lt_of_pos _ hh⟩⟩
+
+theorem cong_unique (x y w : Int) (hw : 0 < w) (hx : 0 ≤ x ∧ x < w) (hc : (x - y) % w = 0) : x = y % w := by
+  have := (Int.emod_eq_emod_iff_emod_sub_eq_zero (m := x) (n := w) (k := y)).2 hc
+  rw [Int.emod_eq_of_lt hx.1 hx.2] at this
+  exact this
+
+theorem absSum_zero (v : V3) (h : absSum v = 0) : v.x = 0 ∧ v.y = 0 ∧ v.z = 0 := by
+  simp only [absSum] at h; omega
+
+theorem torus_walk_compose (s d : V3) (w h : Int) (hw : 1 ≤ w) (hh : 1 ≤ h)
+    (den k0 k1 k2 k3 t : Nat) (h0 : k0 < den) (h1 : k1 < den) (h2 : k2 < den) (h3 : k3 < den)
+    (den' j0 j1 j2 : Nat) (g0 : j0 < den') (g1 : j1 < den') (g2 : j2 < den') :
+    ∃ v path, torusPath s d w h den k0 k1 k2 k3 t = .ok v ∧
+      ldf v (projT s w h) (some w) (some h) den' j0 j1 j2 = .ok path ∧
+      torusLen s d w h = .ok (path.length : Int) ∧
+      walkOk (some w) (some h) (projT s w h) path = true ∧
+      lastPos (projT s w h) path = projT d w h := by
+  have hw' : 0 < w := by omega
+  have hh' : 0 < h := by omega
+  have hz : ¬ (w = 0 ∨ h = 0) := by omega
+  obtain ⟨hlen, hcx, hcy⟩ := torusPathCore_ok s d w h hw' hh' den k0 k1 k2 k3 t h0 h1 h2 h3
+  generalize hv : torusPathCore s d w h den k0 k1 k2 k3 t = v at *
+  obtain ⟨path, hp, hok⟩ := ldf_ok v (projT s w h) (some w) (some h) den' j0 j1 j2 g0 g1 g2
+  refine ⟨v, path, by simp only [torusPath, hz, if_false, hv], hp, ?_⟩
+  simp only [ldfOk, Bool.and_eq_true, beq_iff_eq, congr?] at hok
+  obtain ⟨⟨⟨hwalk, hl⟩, hx⟩, hy⟩ := hok
+  refine ⟨by simp only [torusLen, hz, if_false, hl, hlen], hwalk, ?_⟩
+  -- the end of the walk is congruent to the destination
+  have ex : ((lastPos (projT s w h) path).1 - (proj d).1) % w = 0 := by
+    have e1 := Int.emod_def ((proj s).1) w
+    obtain ⟨q1, hq1⟩ := Int.dvd_of_emod_eq_zero hx
+    obtain ⟨q2, hq2⟩ := Int.dvd_of_emod_eq_zero hcx
+    simp only [projT, proj] at *
+    have : (lastPos ((s.x - s.z) % w, (s.y - s.z) % h) path).1 - (d.x - d.z) =
+        w * (q1 + q2 - (s.x - s.z) / w) := by
+      rw [Int.mul_sub, Int.mul_add]; omega
+    rw [this]; exact Int.mul_emod_right _ _
+  have ey : ((lastPos (projT s w h) path).2 - (proj d).2) % h = 0 := by
+    have e1 := Int.emod_def ((proj s).2) h
+    obtain ⟨q1, hq1⟩ := Int.dvd_of_emod_eq_zero hy
+    obtain ⟨q2, hq2⟩ := Int.dvd_of_emod_eq_zero hcy
+    simp only [projT, proj] at *
+    have : (lastPos ((s.x - s.z) % w, (s.y - s.z) % h) path).2 - (d.y - d.z) =
+        h * (q1 + q2 - (s.y - s.z) / h) := by
+      rw [Int.mul_sub, Int.mul_add]; omega
+    rw [this]; exact Int.mul_emod_right _ _
+  -- and it is in range
+  have hr : (0 ≤ (lastPos (projT s w h) path).1 ∧ (lastPos (projT s w h) path).1 < w) ∧
+      (0 ≤ (lastPos (projT s w h) path).2 ∧ (lastPos (projT s w h) path).2 < h) := by
+    by_cases hne : path = []
+    · subst hne
+      simp only [lastPos, List.getLast?_nil, projT]
+      exact ⟨⟨Int.emod_nonneg _ (Int.ne_of_gt hw'), Int.emod_lt_of_pos _ hw'⟩,
+        ⟨Int.emod_nonneg _ (Int.ne_of_gt hh'), Int.emod_lt_of_pos _ hh'⟩⟩
+    · exact walkOk_last_range w h hw' hh' _ path hwalk hne
+  have fx := cong_unique _ _ w hw' hr.1 ex
+  have fy := cong_unique _ _ h hh' hr.2 ey
+  ext
+  · rw [fx]; rfl
+  · rw [fy]; rfl
 end Rig.C11
